@@ -346,7 +346,10 @@ func run(c *lib.Ctx, cs caseT) {
 				created = true
 			}
 			if s.Kind == "grant" && s.User == n && created {
-				grants = append(grants, lib.CoqTuple(coqLevel(s.DB, s.Tbl), lib.CoqListOf(s.Privs, func(p string) string { return fmt.Sprint(privCode[p]) })))
+				grants = append(grants, "(GPriv "+coqLevel(s.DB, s.Tbl)+" "+lib.CoqListOf(s.Privs, func(p string) string { return fmt.Sprint(privCode[p]) })+")")
+			}
+			if s.Kind == "grant-routine" && s.User == n && created {
+				grants = append(grants, "(GTouchDb "+lib.CoqStr(s.DB)+")")
 			}
 		}
 		for _, d := range []string{"", "db", "Db2", "db2"} {
@@ -524,6 +527,9 @@ func main() {
 			{History: []stmtT{cu("u1"), {Kind: "grant", User: "u1", DB: "db", Tbl: "Orders", Privs: []string{"SELECT"}}, {Kind: "grant-routine", User: "u1", DB: "db", Tbl: "DoWork", Privs: []string{"EXECUTE"}}}},
 			{History: []stmtT{cu("u3"), {Kind: "create-role", User: "r1"}, {Kind: "grant", User: "r1", DB: "db", Tbl: "Orders", Privs: []string{"SELECT"}}, {Kind: "grant-routine", User: "r1", DB: "db", Tbl: "DoWork", Privs: []string{"EXECUTE"}}, {Kind: "grant-role", User: "u3", Role: "r1"}}},
 			{History: []stmtT{cu("u2"), {Kind: "grant-routine", User: "u2", DB: "db", Tbl: "lowproc", Privs: []string{"EXECUTE"}}}},
+			// a routine grant creates the database entry under its spelling; a later grant spells the database differently
+			{History: []stmtT{{Kind: "create-role", User: "r2"}, {Kind: "grant-routine", User: "r2", DB: "db", Tbl: "lowproc", Privs: []string{"EXECUTE"}},
+				{Kind: "grant", User: "r2", DB: "DB", Privs: []string{"DELETE", "INSERT"}}}},
 			// ordinary behaviour
 			{History: []stmtT{cu("u1"), {Kind: "grant", User: "u1", DB: "db", Privs: []string{"SELECT", "UPDATE"}}, {Kind: "grant", User: "u1", DB: "db", Tbl: "t", Privs: []string{"INSERT"}}}},
 			{History: []stmtT{cu("u2"), {Kind: "create-role", User: "r2"}, {Kind: "grant", User: "r2", Privs: []string{"SELECT"}}, {Kind: "grant-role", User: "u2", Role: "r2"}, {Kind: "lock", User: "u2"}}},
